@@ -24,6 +24,14 @@ def load_mutants(prop=None):
 def apply(repo, m):
     """-> overlay dict or None when the anchor text is no longer present (stale)."""
     overlay = {}
+    if m['edits'] == 'REFORMAT':
+        # the whole tree re-emitted by ast.unparse: formatting, comments and line numbers change, behaviour does not
+        import ast
+        from ..srcmodel import MBI_FILES, MECH_FILES
+        for rel in MBI_FILES + MECH_FILES:
+            if repo.exists(rel):
+                overlay[rel] = ast.unparse(ast.parse(repo.source(rel))) + '\n'
+        return overlay
     for rel, old, new in m['edits']:
         src = overlay.get(rel) or repo.source(rel)
         if src.count(old) != 1:
